@@ -240,6 +240,56 @@ func rawEncodeNoTrim(c *ref.Codec, ks, vs [][]byte, ls []string) ([]byte, error)
 type c19Stats struct{ cases, judged, rejected, panics int64 }
 
 func c19Version(cfg *world.Config, v *version, acc *pairAcc, st *c19Stats) {
+	// "its top node is missing": the configured store does not hold the node, while a node cache shared with
+	// ANOTHER store (other NodeURLPrefix) that does hold it is warm. What another store has is not in this one.
+	if v.link != "" {
+		for _, how := range []string{"load", "flush"} {
+			cache := env.NewCache(env.CacheBig)
+			warm := v.w.RemoteConfig(v.w.Store, false)
+			warm.NodeCache = cache
+			ok := false
+			if how == "load" {
+				if wt, err := v.root.LoadMast(ctx, warm); err == nil {
+					v.w.ReadContents(wt)
+					ok = true
+				}
+			} else {
+				src := env.NewStore(v.w.Store.Prefix)
+				wcfg := v.w.RemoteConfig(src, false)
+				wcfg.NodeCache = cache
+				r := guardRes(func() error {
+					wt, err := mast.NewRoot(cfg.CreateOptions()).LoadMast(ctx, wcfg)
+					if err != nil {
+						return err
+					}
+					for k, vi := range v.c.M {
+						if err := wt.Insert(ctx, cfg.FreshKey(k), cfg.FreshVal(vi)); err != nil {
+							return err
+						}
+					}
+					nr, err := wt.MakeRoot(ctx)
+					ok = err == nil && nr.Link != nil && *nr.Link == v.link
+					return err
+				})
+				ok = ok && r.Err == nil && r.Panic == nil
+			}
+			if !ok {
+				continue
+			}
+			elsewhere := env.NewStore("mem://elsewhere/")
+			rc := v.w.RemoteConfig(elsewhere, false)
+			rc.NodeCache = cache
+			atomic.AddInt64(&st.cases, 1)
+			atomic.AddInt64(&st.judged, 1)
+			r := guardRes(func() (err error) { _, err = v.root.LoadMast(ctx, rc); return })
+			if r.Err == nil || r.Panic != nil {
+				acc.add(cfg, "C19", []explore.Finding{{Sig: "C19|missing|top-node-not-in-the-configured-store|" + resClass(r) + "|cache-shared-with-another-store", What: "LoadMast accepted a root whose top node is not in the configured store: a node cache shared with another store (different NodeURLPrefix) that holds the node answered for it", Detail: r.String()}},
+					[]string{fmt.Sprintf("version %v", v.c), "cache warmed through store " + v.w.Store.Prefix + " by a " + how + "; root then loaded against an empty store mem://elsewhere/ with the same cache"})
+			} else {
+				atomic.AddInt64(&st.rejected, 1)
+			}
+		}
+	}
 	for _, c := range c19Cases(cfg, v) {
 		atomic.AddInt64(&st.cases, 1)
 		clauses := c19Clauses(cfg, v.w.Store, c)
